@@ -136,6 +136,14 @@ CHECKS = {
    note="Trusted: TLC, raw and proto constructor/projection glue. Abstract port shapes / blockages compare as sets by layer "
         "(their order is C20's subject). Proto->raw uses the layer table that gives purpose numbers their meaning.",
    tech="TLA+ field-relation spec + TLC case enumeration; S->I replay in three directions; I->S order validation"),
+ "C19": dict(cat="model_checking", ref="§6 C19",
+   text="TetrisProto.tla is the tetris<->vlsir.tetris field relation as a function with the ordering obligation (ValidOrder of "
+        "DepOrderProps), outline validity and the set of single breakages of a message; TLC emits library, message and "
+        "breakages; the crate's export must be that message (cells in any dependencies-first order, validated by TLC), "
+        "import(export) must equal the library, the specification's message must survive import->export, and every broken "
+        "message must be rejected with an error, never a crash.",
+   note="Trusted: TLC, tetris/proto constructor and projection glue. Abstract ports outside the claim.",
+   tech="TLA+ field-relation + fault spec, TLC case enumeration; S->I replay; I->S order validation"),
 }
 
 PENDING = {}
